@@ -6,7 +6,7 @@ import os
 import sys
 from collections import defaultdict
 
-from ..cli import C, find_config_dir, _check_deprecated_description_cleaning, _print_deprecation_warnings
+from ..cli import C, find_config_dir, load_rules_or_exit, _check_deprecated_description_cleaning, _print_deprecation_warnings
 from ..config_loader import load_config
 from ..merchant_utils import get_all_rules, get_transforms
 from ..analyzer import parse_amex, parse_boa, parse_generic_csv
@@ -55,7 +55,7 @@ def cmd_discover(args):
     # Load merchant rules
     merchants_file = config.get('_merchants_file')
     if merchants_file and os.path.exists(merchants_file):
-        rules = get_all_rules(merchants_file, match_mode=rule_mode)
+        rules = load_rules_or_exit(merchants_file, rule_mode)
     else:
         rules = get_all_rules(match_mode=rule_mode)
 
